@@ -65,18 +65,18 @@ CLAIMED = {
     'C11': e1('Thread pool under a cooperative thread model (std::thread = table entry run by the harness scheduler, condition_variable::wait parks and unwinds to the scheduler, a notified worker restarts worker() - equivalent because '
               'it parks holding only the lock; notify_one pick is a skeleton input): pools of 1..3 workers, <=3 submissions of six kinds plus jobs submitting jobs, own-thread stop(), delete pool from a worker, stop then submit; '
               'per job ran + cancelled == 1, ran only on a worker id, cancelled coroutines see await_canceled_exception, run() futures report a broken promise, nothing forgotten after a drain (lost notification) or after stop(), '
-              'workers joined / self-detached, no join deadlock, allocation balance. Unit h_stop_race: a submission against stop() of another thread placed in front of every mutex acquisition of the submission: nothing is left pending once stop() has returned. Known finding (printed, exit 0): raw-handle jobs meeting a stopped pool are dropped (D9).', 'DESIGN.md 3.7, 5/C11', T_E1 + T_INJ),
+              'workers joined / self-detached, no join deadlock, allocation balance. Unit h_stop_prepark: stop() of another thread while a worker is entering condition_variable::wait (pre-park hook; counterexamples confirmed on the natively executed translation). Unit h_stop_race: a submission against stop() of another thread placed in front of every mutex acquisition of the submission: nothing is left pending once stop() has returned. Known finding (printed, exit 0): raw-handle jobs meeting a stopped pool are dropped (D9).', 'DESIGN.md 3.7, 5/C11', T_E1 + T_INJ),
     'C12': e1('Manual-mode histories over sleep_until/schedule, cancel(id[,e]), remove(id), get_expired(now) with time points enumerated up to weak order (ties included) and identifiers canonical, against a per-sleep '
               'reference model; unit h_cover: one step (every cancel / get_expired, thorough also sleep / cancel(e) / remove, at every position) from every abstract heap state with <= 3 entries (alive or emptied) that a breadth-first search over the abstraction reaches (209 states; quick: those reached within 5 operations); unit h_order: 6 (thorough 5..7) pending sleeps in arrival orders, then get_expired at each time value in turn hands out exactly the due sleep; the interval() generator with a stop token (request_stop while sleeping / parked / before start; double-lock of the scheduler mutex is a failure); start(awaitable) under a virtual '
               'clock with up to 3 scripted sleepers (never early, on time when idle, in deadline order, cancels hit exactly their target); destruction cancels pending sleeps. Unit h_start_mt: another thread\'s sleep_until placed in front of every acquisition of the scheduler mutex by the scheduling thread, or inside its timed wait (the wait must be woken when the new entry is the earliest): the foreign sleep is woken at its own time point.', 'DESIGN.md 3.8, 5/C12', T_E1 + T_INJ),
     'C13': e1('Scripted generator bodies (yield lvalue/temporary, await ready / pending future, throw, return; up to 6 entries) x sequences of 11 consumer access styles (next()/value(), iterators, range-for, call -> future, '
               'co_await of either) for generator<int> and generator<int,int>: observed values, argument echo, exception position, single end indication then done(), RAII probes and allocation balance when '
-              'destroyed unstarted / parked / finished; payloads, awaited results and arguments symbolic. Unit sync_other_thread: a synchronous read whose awaited operation is completed by another thread while the reader blocks (wait hook). Unit cb_consumer: a callback awaiter that hands over the argument of its next request inside the notification.', 'DESIGN.md 3.8, 5/C13', T_E1 + T_INJ),
+              'destroyed unstarted / parked / finished; payloads, awaited results and arguments symbolic. Unit sync_other_thread: a synchronous read whose awaited operation is completed by another thread while the reader blocks (wait hook). Unit cb_consumer: a callback awaiter that hands over the argument of its next request inside the notification; unit fut_cb_consumer: the same over the future interface (g(arg) and a callback on the returned future).', 'DESIGN.md 3.8, 5/C13', T_E1 + T_INJ),
     'C14': e1('0..3 (thorough 4) scripted source generators (yield, await pending, throw, return, infinite) x 6 consumer access styles, with and without arguments: per-source order and exactly-once delivery, payloads, '
               'end / exception only when nothing is left, exception must be one a source threw, argument routing to the source returned last, probes and allocation balance after destruction. Units destroy_inflight(_arg): the parked aggregate is destroyed while sources are in flight and another thread completes them while the destructor blocks (wait hook).', 'DESIGN.md 3.8, 5/C14', T_E1 + T_INJ),
     'C15': e1('Histories of up to 3 (thorough 4) events over <=3 listeners (re-awaiting coroutines, connect() callbacks returning true/false, listener on a dead emitter), collector calls by value / rvalue / lvalue / void, '
               'copying and dropping signal / collector handles: each listener log equals the model (every emission while waiting exactly once, right value), cancellation when the last handle goes, '
-              'immediate failure on a disconnected emitter, allocation balance. Unit sig_mt (listeners subscribing on another thread): 7 pairs of collector call / coroutine subscription / connect / last-handle destruction, the operation of the second thread placed in front of every atomic instruction of the first (one pre-emption), then a second emission and disconnect: no lost listener, no duplicate, cancellation reaches everybody.', 'DESIGN.md 3.8, 5/C15', T_E1 + T_INJ),
+              'immediate failure on a disconnected emitter, allocation balance; unit emit_kinds: every sequence of 3 (thorough 2..4) collector-call flavours. Unit sig_mt (listeners subscribing on another thread): 7 pairs of collector call / coroutine subscription / connect / last-handle destruction, the operation of the second thread placed in front of every atomic instruction of the first (one pre-emption), then a second emission and disconnect: no lost listener, no duplicate, cancellation reaches everybody.', 'DESIGN.md 3.8, 5/C15', T_E1 + T_INJ),
     'C16': e1('Histories over publish one / batch, subscribe recent / at position / by copy, next() polled / blocking-when-due / awaited by a coroutine, kick, leave, close for <=2 subscribers, three subscription modes and '
               'queue configurations unlimited,(1,1),(2,1),(3,2),(5,5) against a reference stream + cursors: all_values contiguous, duplicate-free and in order until a justified first end indication; skipping modes '
               'strictly forward, skip_to_recent newest; close / destruction wakes parked subscribers; copies continue from the original\'s position; values symbolic; hand-written 5..9 step histories (lag == max, lag > max, slot reuse after a kicked occupant, ...); thorough: one step from every abstract state a breadth-first search reaches within 3 operations. Unit pub_conc: an operation of the publisher thread in front of every mutex acquisition of an awaited next() of the subscriber, caught up (pub_conc) or with one unread value (pub_conc_ahead).', 'DESIGN.md 3.7, 5/C16', T_E1 + T_INJ),
@@ -88,9 +88,9 @@ CLAIMED = {
               'future, helper block released exactly once. Unit conv_mt: the registration of 6 adapters against the resolving thread, whose complete resolve operation is placed in front of every atomic instruction of the registration (one pre-emption).', 'DESIGN.md 3.8, 5/C18', T_E1 + T_INJ),
     'C19': e2('Per storage policy (default, reusable, reusable_mtsafe, stack, placement, reusable_buffer, promise_extra_storage over two bases) real coroutines of two frame sizes in creation/completion programs of <=3 frames '
               '(overlapping lifetimes for default and mtsafe): block valid for the requested size, never handed out twice while live, released exactly once with its size, canaries intact, no operator new '
-              'for a size class served before, stack storage only when it fits, extra object constructed once / usable at once / destroyed once; two live frames in one stack_storage region (h_stack2); creations that meet std::bad_alloc at their first operator new leave no block behind and do not disturb live frames (h_ovl_oom, allocation failure injected on demand). Unit mtsafe2 (E2, every SC interleaving): two threads creating and finishing coroutine frames on one reusable_storage_mtsafe.', 'DESIGN.md 3, 5/C19', T_E1 + ' ; ' + T_E2, engine='E1+E2'),
+              'for a size class served before, stack storage only when it fits, extra object constructed once / usable at once / destroyed once; requested sizes as symbolic data with the policy called directly (h_sizes: 1..3 requests of arbitrary size in [1,400], every byte writable, live blocks disjoint, no operator new for a size served before); two live frames in one stack_storage region (h_stack2); creations that meet std::bad_alloc at their first operator new leave no block behind and do not disturb live frames (h_ovl_oom, allocation failure injected on demand). Unit mtsafe2 (E2, every SC interleaving): two threads creating and finishing coroutine frames on one reusable_storage_mtsafe.', 'DESIGN.md 3, 5/C19', T_E1 + ' ; ' + T_E2, engine='E1+E2'),
     'C20': e1('Every named operation (create / resolve / await by coroutine, blocking thread, callback / destroy a future-promise pair of int, void, small struct; lock, contend, hand over, release the mutex; build, merge, move, '
-              'pop, clear a suspend point with <=3 handles; step a synchronous generator) runs inside an allocation region from states produced by short prefixes: operator new calls in the region == coroutine frames '
+              'pop, clear a suspend point with <=3 handles; step a synchronous generator; a pipeline in which the callback awaiter of one future resolves the next awaited promise) runs inside an allocation region from states produced by short prefixes: operator new calls in the region == coroutine frames '
               'the harness created there (0 under placement_alloc). Excluded by statement: ready-queue deque growth every 64 pushes, >3 handles per suspend point.', 'DESIGN.md 5/C20', T_E1),
 }
 
